@@ -29,6 +29,7 @@ const preludeCore = `
 (define-fun gdiv ((a Int) (b Int)) Int (ite (>= a 0) (ite (> b 0) (div a b) (- (div a (- b)))) (ite (> b 0) (- (div (- a) b)) (div (- a) (- b)))))
 (define-fun gmod ((a Int) (b Int)) Int (- a (* b (gdiv a b))))
 (declare-fun itag (Int) Int)
+(declare-fun ifaceobj (Int) Int)
 (declare-fun umod (Int Int) Int)
 (declare-fun irow (Int Int Int) Int)
 (declare-fun irow_tag (Int) Int)
